@@ -603,13 +603,13 @@ class Differential:
         # of the line is detail for the property oracle: timings, generated values, full headers)
         self.project = project or (lambda l: l)
 
-    def run_both(self, episodes, want_model=True):
+    def run_both(self, episodes, want_model=True, timeout=None):
         self.n += 1
         ops = [l for ep in episodes for l in ep]
         opsf = self.ctx.path("ops_%d.txt" % self.n)
         write_lines(opsf, ops)
         rc, log, impl = run_impl(self.ctx, self.binary, opsf, self.ctx.path("impl_%d.txt" % self.n),
-                                 test=self.test, env=self.env, timeout=self.timeout)
+                                 test=self.test, env=self.env, timeout=timeout or self.timeout)
         model = run_model(opsf, self.ctx.path("model_%d.txt" % self.n)) if want_model else None
         return rc, log, impl, model
 
@@ -645,6 +645,37 @@ class Differential:
             raise RuntimeError("model produced %d lines for %d ops" % (len(model), nops))
         si, sm = self.split(episodes, impl), self.split(episodes, model)
         self.last = (si, sm)
+        if ctx.thorough() and not getattr(ctx, "_interp_done", False):
+            # the compiled driver against Lean's interpreter on a prefix of the same ops
+            ctx._interp_done = True
+            pref, n = [], 0
+            for ep in episodes:
+                if n + len(ep) > 400 and pref:
+                    break
+                pref.append(ep)
+                n += len(ep)
+            pf = ctx.path("interp_ops.txt")
+            write_lines(pf, [l for ep in pref for l in ep])
+            try:
+                lock = _lake_lock()
+                try:
+                    with open(pf, "rb") as fin:
+                        p = subprocess.run(["lake", "env", "lean", "--run", "Main.lean"], cwd=LEAN_DIR, stdin=fin,
+                                           stdout=subprocess.PIPE, stderr=subprocess.PIPE, timeout=600)
+                finally:
+                    lock.close()
+                interp = p.stdout.decode("utf-8", "replace").split("\n")
+                if interp and interp[-1] == "":
+                    interp.pop()
+                compiled = [o for outs in sm[:len(pref)] for o in outs]
+                same = p.returncode == 0 and interp == compiled
+                ctx.obligations.append(("compiled driver = interpreter (%d ops)" % len(compiled), same,
+                                        "identical output" if same else "outputs differ or interpreter failed: " + p.stderr.decode()[-300:]))
+                if not same:
+                    violation(ctx, label + "-driver", {"what": "the compiled Lean driver and the Lean interpreter disagree on the same ops",
+                                                        "broken": "trusted base: Lean compiler vs interpreter", "ops_file": pf}, no_input=True)
+            except Exception as e:      # noqa
+                ctx.notes.append("interpreter cross-check did not run: %s" % e)
         reported = 0
         for ep, oi, om in zip(episodes, si, sm):
             ofail = split_known(ctx, oracle(ep, oi)) if oracle else []
@@ -683,7 +714,8 @@ class Differential:
 
         def fails(b):
             cand = head + b
-            rc, _, oi, _ = self.run_both([cand], want_model=False)
+            # a shrink candidate is a single episode: a hang must not cost the full budget
+            rc, _, oi, _ = self.run_both([cand], want_model=False, timeout=min(self.timeout, 90))
             return rc == 0 and len(oi) == len(op_lines(cand)) and pred(cand, oi)
         return head + ddmin(body, fails, max_runs=150)
 
@@ -692,7 +724,7 @@ class Differential:
 
         def fails(b):
             cand = head + b
-            rc, _, oi, om = self.run_both([cand])
+            rc, _, oi, om = self.run_both([cand], timeout=min(self.timeout, 90))
             return rc == 0 and first_diff([self.project(x) for x in oi], om) is not None
         return head + ddmin(body, fails, max_runs=150)
 
